@@ -53,6 +53,10 @@ type Config struct {
 	SwitchOnNet   bool  // coarse mode: virtual network operations (Dial, Write, Close) are switch points
 	SwitchOnSpawn bool  // coarse mode: a go statement is a switch point too (the new thread may run before its creator continues)
 	FreeAtExit    bool  // in CostDelay mode, make the choice after a thread exit/block free (cost 0 for every alternative)
+	// FinePkgs: coarse mode: lock / atomic operations executed by code whose function name contains one of
+	// these strings (package paths) are switch points as well - fine granularity for one package, message
+	// granularity for the rest.
+	FinePkgs []string
 }
 
 // PointInfo describes one recorded decision.
@@ -64,6 +68,7 @@ type PointInfo struct {
 	Kind       Kind  // kind of the scheduling point
 	Tids       []int // thread ids of the options (nil for Env); -1 = fire timer
 	Label      string
+	Frozen     bool // recorded after Freeze(): the explorer does not branch here
 }
 
 // SpinReport describes a detected busy-wait.
@@ -132,6 +137,7 @@ type exec struct {
 	cur           *thread
 	res           *Result
 	aborting      bool
+	frozen        bool
 	finished      bool
 	doneCh        chan struct{}
 	now           int64
@@ -367,6 +373,15 @@ func (e *exec) fireTimer(tm *timer) {
 	e.hbOverride = nil
 }
 
+// Freeze ends the explored part of an execution: decisions after it still happen (default option, or
+// whatever a replayed prefix says) but the explorer does not branch on them. A harness calls it once
+// its oracle has been evaluated and only tear-down is left.
+func Freeze() {
+	if ex != nil {
+		ex.frozen = true
+	}
+}
+
 // decide records a decision among n options and returns the option taken.
 func (e *exec) decide(n int, curEnabled, env bool, kind Kind, tids []int, label string) int {
 	idx := len(e.res.Points)
@@ -376,12 +391,12 @@ func (e *exec) decide(n int, curEnabled, env bool, kind Kind, tids []int, label 
 		if c < 0 || c >= n {
 			e.res.ReplayErr = fmt.Sprintf("decision %d: prefix asks for option %d of %d (%s)", idx, c, n, label)
 			c = 0
-			e.res.Points = append(e.res.Points, PointInfo{N: n, Chosen: c, CurEnabled: curEnabled, Env: env, Kind: kind, Tids: tids, Label: label})
+			e.res.Points = append(e.res.Points, PointInfo{N: n, Chosen: c, CurEnabled: curEnabled, Env: env, Kind: kind, Tids: tids, Label: label, Frozen: e.frozen})
 			e.finish()
 			runtime.Goexit()
 		}
 	}
-	e.res.Points = append(e.res.Points, PointInfo{N: n, Chosen: c, CurEnabled: curEnabled, Env: env, Kind: kind, Tids: tids, Label: label})
+	e.res.Points = append(e.res.Points, PointInfo{N: n, Chosen: c, CurEnabled: curEnabled, Env: env, Kind: kind, Tids: tids, Label: label, Frozen: e.frozen})
 	return c
 }
 
@@ -555,10 +570,35 @@ func Point(kind Kind, obj uintptr) {
 		return
 	}
 	e.step(kind, obj)
-	if e.cfg.Coarse && kind != KYield && kind != KEnter && !(kind == KSpawn && e.cfg.SwitchOnSpawn) && !(kind == KTime && e.cfg.SwitchOnTime) && !(kind == KNet && e.cfg.SwitchOnNet) {
+	if e.cfg.Coarse && kind != KYield && kind != KEnter && !(kind == KSpawn && e.cfg.SwitchOnSpawn) && !(kind == KTime && e.cfg.SwitchOnTime) && !(kind == KNet && e.cfg.SwitchOnNet) && !((kind == KLock || kind == KAtomic) && e.fineCaller()) {
 		return
 	}
 	e.reschedule(kind, "")
+}
+
+// fineCaller reports whether the operation being executed was issued by code of one of cfg.FinePkgs
+// (the first frame outside the shims decides).
+func (e *exec) fineCaller() bool {
+	if len(e.cfg.FinePkgs) == 0 {
+		return false
+	}
+	var pcs [16]uintptr
+	n := runtime.Callers(3, pcs[:])
+	frames := runtime.CallersFrames(pcs[:n])
+	for {
+		f, more := frames.Next()
+		if !strings.Contains(f.Function, "/internal/verif/") {
+			for _, p := range e.cfg.FinePkgs {
+				if strings.Contains(f.Function, p) {
+					return true
+				}
+			}
+			return false
+		}
+		if !more {
+			return false
+		}
+	}
 }
 
 // Block parks the calling thread until pred() holds. pred is evaluated by whichever thread
@@ -573,7 +613,7 @@ func Block(kind Kind, obj uintptr, why string, pred func() bool) {
 	}
 	e.step(kind, obj)
 	me := e.cur
-	if !e.cfg.Coarse {
+	if !e.cfg.Coarse || ((kind == KLock || kind == KAtomic) && e.fineCaller()) {
 		e.reschedule(kind, "") // the scheduling point before the operation
 	}
 	for !pred() {
